@@ -146,10 +146,10 @@ static size_t s_path_of(const struct level *l, char *buf, size_t cap) {
         buf[1] = 0;
         return 1;
     }
-    size_t idxs[64];
+    static size_t idxs[4096]; /* nesting goes up to options.max_depth, which the op can set to 1000 and more */
     size_t n = 0;
     for (const struct level *k = l; k->parent != NULL; k = k->parent) {
-        HC_CHECK(n < 64);
+        HC_CHECK(n < 4096);
         idxs[n++] = k->idx;
     }
     size_t off = 0;
@@ -208,8 +208,9 @@ static int s_cb(struct aws_xml_node *node, void *ud) {
         me.idx = parent->next_child++;
         me.depth = parent->depth + 1;
     }
-    char path[1024];
+    static char path[1 << 16]; /* not on the stack: callbacks nest as deep as the document is traversed */
     size_t plen = s_path_of(&me, path, sizeof(path));
+    HC_CHECK(plen + 32 < sizeof(path));
     char act = s_action_for(path, plen);
 
     struct aws_byte_cursor name = aws_xml_node_get_name(node);
